@@ -62,6 +62,17 @@ def gen(rng, tier):
         for d, tag in magic.variants(rng, body):
             meta = {"via_file": core.input_route(rng)}
             cases.append(Case("cli.hex_decode " + hx(d), tags=("dec", tag), runner="cli", meta=meta))
+    # decoded OUTPUT with line feeds / NULs / Ctrl-Z at chosen distances from the end and the start, around the sizes an
+    # output buffer may have (1024, 4096, 8192, 65536): every byte is written, whatever it is and wherever it stands
+    for special in (b"\n", b"\r\n", b"\x00", b"\x1a", b"\x04"):
+        for tail in (0, 1, 1023, 1024, 1025, 3000, 4095, 4096, 8192, 65536):
+            for head in (0, 5, 1024):
+                if special != b"\n" and (tail not in (0, 1024, 4096) or head == 5):
+                    continue
+                d = bytes([rng.choice(b"abcxyz0189")]) * head + special + bytes([rng.choice(b"ABCXYZ")]) * tail
+                cases.append(Case("cli.hex_decode " + hx(("0x" + d.hex()).encode()), tags=("dec", "special-in-output"), runner="cli", meta={"via_file": rng.random() < 0.5}))
+    cases.append(Case("cli.hex_decode " + hx(("0x" + (b"\n" * 5000).hex()).encode()), tags=("dec", "special-in-output"), runner="cli", meta={}))
+    cases.append(Case("cli.hex_decode " + hx(("0x" + (b"line\n" * 3000 + b"x" * 2000).hex()).encode()), tags=("dec", "special-in-output"), runner="cli", meta={}))
     # input that arrives in pieces: stdin written in up to three writes with pauses, and a named pipe fed the same way —
     # the end of the input is end-of-file, not a short read
     for n in (1, 2, 3, 100, 300, 4095, 4096, 4097, 8191, 8192, 8193, 16384, 70000):
